@@ -88,6 +88,24 @@ Proof.
                                (limits_of_ok c Hc) (proj1 (proj2 C19_facts)) (proj2 (proj2 C19_facts)) Hs Hle).
 Qed.
 
+(* the same over whole histories, with "within its own limits" said about the client's traffic rather than about
+   bucket levels: whatever the other clients sent, a client whose own request stream (this request included) is
+   admitted in full by a reference bucket with its per-IP rate/burst, and likewise for its connection since the
+   connection was opened, is admitted whenever the admitted traffic leaves a token in the global budget *)
+Theorem C19_isolation_history : forall (e : env) (lim : limits) (ord : list rl_limiter) (t0 : Q) (evs : list (Q * event))
+                                       (i : nat) (now : Q) (ip c : N),
+  lim_ok lim -> global_last ord = true -> NoDup ord -> times_sorted t0 evs -> end_time t0 evs <= now ->
+  let hist := evs ++ [(now, Req ip c)] in
+  let trs := fst (RateLimit.run e lim ord t0 evs) in
+  let st := snd (RateLimit.run e lim ord t0 evs) in
+  let G := snd (TokenBucket.run (mk (rate_of lim KGlobal) (burst_of lim KGlobal) t0) (admitted_req_times evs trs)) in
+  fst (ref_ip ip true (mk (rate_of lim (KIP ip)) (burst_of lim (KIP ip)) t0) hist) = true ->
+  (conn_on lim = true ->
+   fst (ref_conn lim c true (mk (rate_of lim (KConn c)) (burst_of lim (KConn c)) t0) hist) = true) ->
+  1 <= tokens_at G now ->
+  admitted (fst (step e lim ord i st now (Req ip c))) = true.
+Proof. exact C19_isolation_history_lemma. Qed.
+
 (* ---------- non-vacuity ---------- *)
 (* global 10/s; an abusive client (per-IP burst 1) fires 20 requests at once: 1 admitted, 19 refused by its own
    limit; the global bucket still holds 9 tokens, so the compliant client is admitted *)
@@ -136,9 +154,34 @@ Example C19_global_first_violates :
   admitted (fst (step e lim bad 20 (snd r) 0 (Req 1 1))) = false.
 Proof. cbn zeta. repeat split; vm_compute; try reflexivity; discriminate. Qed.
 
+(* hypotheses of C19_isolation_history met: a compliant client (address 1, one request per second, per-connection
+   limit enabled) interleaved with an abusive one; its 3rd request comes after 40 abusive ones *)
+Definition ex_cfg2 : config :=
+  {| GlobalRequestsPerSecond := 3; PerIPRequestsPerSecond := 1; PerIPBurstSize := 1;
+     PerConnectionRequestsPerSecond := 1; PerConnectionBurstSize := 1;
+     ReadLargeOpsPerSecond := 1; WriteLargeOpsPerSecond := 1; ReaddirOpsPerSecond := 1;
+     MountOpsPerMinute := 60; CleanupInterval := 1 |}.
+Definition ex_mixed : list (Q * event) :=
+  repeat (0, Req 0 0) 20 ++ [(0, Req 1 1)] ++ repeat (1, Req 0 0) 20 ++ [(1, Req 1 1)].
+
+Example C19_isolation_history_nontrivial :
+  let lim := limits_of ex_cfg2 in
+  let e := env_go lim (fun _ _ => true) in
+  let hist := ex_mixed ++ [(2, Req 1 1)] in
+  let r := RateLimit.run e lim allow_request_order 0 ex_mixed in
+  let G := snd (TokenBucket.run (mk (rate_of lim KGlobal) (burst_of lim KGlobal) 0) (admitted_req_times ex_mixed (fst r))) in
+  conn_on lim = true /\
+  fst (ref_ip 1 true (mk (rate_of lim (KIP 1)) (burst_of lim (KIP 1)) 0) hist) = true /\
+  fst (ref_conn lim 1 true (mk (rate_of lim (KConn 1)) (burst_of lim (KConn 1)) 0) hist) = true /\
+  fst (ref_ip 0 true (mk (rate_of lim (KIP 0)) (burst_of lim (KIP 0)) 0) ex_mixed) = false /\
+  nadm (decisions (fst r)) = 4%Z /\ 1 <= tokens_at G 2 /\
+  admitted (fst (step e lim allow_request_order 42 (snd r) 2 (Req 1 1))) = true.
+Proof. cbn zeta. repeat split; vm_compute; try reflexivity; discriminate. Qed.
+
 Print Assumptions C19_facts.
 Print Assumptions C19_no_consume.
 Print Assumptions C19_own_limit_refusal.
 Print Assumptions C19_global_tracks_admitted.
 Print Assumptions C19_isolation.
 Print Assumptions C19_isolation_go.
+Print Assumptions C19_isolation_history.
